@@ -22,6 +22,60 @@ from .sym import Sym, LeftFragment, set_engine, lift
 from . import symnp
 
 
+class Guard(object):
+    """a symbolic condition under which both arms of a merged conditional are executed"""
+    __slots__ = ('t',)
+
+    def __init__(self, t):
+        self.t = t
+
+
+def guard_value(test):
+    """True / False for a concrete test; a Guard for a symbolic one (or for an array-valued one: NumPy's truth rule applies)"""
+    from .sym import get_engine
+    if isinstance(test, Sym):
+        b = test._b()
+        if b.op == 'bconst':
+            return bool(b.args[0])
+        eng = get_engine()
+        if eng is None:
+            return bool(test)
+        # decided by the path condition?  then no merge is needed
+        return Guard(b)
+    return True if test else False
+
+
+def guard_push(g, positive):
+    from .sym import get_engine
+    eng = get_engine()
+    eng.guard_stack.append(g.t if positive else tm.not_(g.t))
+
+
+def guard_pop():
+    from .sym import get_engine
+    get_engine().guard_stack.pop()
+
+
+def current_guard():
+    from .sym import get_engine
+    eng = get_engine()
+    if eng is None or not eng.guard_stack:
+        return None
+    return tm.and_(*eng.guard_stack)
+
+
+def guard_select(value, old_thunk):
+    """name assignment under a guard: ite(guard, value, old); an unbound old name keeps the new value"""
+    g = current_guard()
+    if g is None:
+        return value
+    try:
+        old = old_thunk()
+    except NameError:
+        return value
+    return symnp.select(g, value, old)
+
+
 class PathAbandoned(Exception):
     """raised by engine hooks to end the current path normally (e.g. after a loop cut)"""
 
@@ -80,6 +134,8 @@ class Engine(object):
         self.path_sat_known = False
         self.stats = {'branch_checks': 0}
         self.side_mode = 'emit'
+        self.guard_stack = []
+        self.guard_log = []           # (array id, index, guard term, new value, old value) of every guarded element store
         self.collected = []
         self.quotients = {}           # (dividend uid, divisor uid) -> (quotient term, defining assumption term)
 
@@ -243,6 +299,15 @@ class Engine(object):
         self.obligations.append(Obligation('%s.abstract#p%d' % (name, self.paths), [t for t in fa if t.op != 'bconst' or not t.args[0]], ga, self.paths, 'lemma'))
         return tm.and_(*self._cond_terms(goal(conc)))
 
+    def learn(self, term):
+        """add a fact returned by abstract_lemma (i.e. proved by its two obligations) to the path condition, conjunct by conjunct"""
+        ts = term.args if term.op == 'and' else (term,)
+        for t in ts:
+            if t.op == 'bconst':
+                continue
+            if t not in self.pc:
+                self.pc.append(t)
+
     def _fresh_like(self, base, v):
         if isinstance(v, Sym):
             if v.is_concrete():
@@ -326,6 +391,8 @@ class Engine(object):
                 self._names = 0
                 self.path_sat_known = False
                 self.collected = []
+                self.guard_stack = []
+                self.guard_log = []
                 try:
                     harness(self)
                     self.flush_collected()
@@ -431,6 +498,8 @@ def _is_sum_of_squares(t):
         return t.args[0] >= 0
     if t.op == 'toreal':
         return _is_sum_of_squares(t.args[0])
+    if t.op == 'ite':
+        return _is_sum_of_squares(t.args[1]) and _is_sum_of_squares(t.args[2])
     return False
 
 
